@@ -66,6 +66,11 @@ CHECKS = {
         note="Trusted: Lean kernel + [propext, Classical.choice, Quot.sound]; hand-written Model/Borrow.lean tied by trace correspondence; ASan/LSan as the oracle for the un-modelled part.",
         technique="Lean 4 protocol theorem (borrow discipline of Face::Table) + trace correspondence + lending-callback histories under ASan/LSan",
         ref="§6 C16"),
+    "C15": dict(
+        text="Proof (Lean 4 kernel), partial: Segment::positionSlots / Slot::finalise / floodShift are modelled in exact rational arithmetic with the font's scale k as a parameter; positions_scale_linearly - for every slot heap, every stream and every k > 0, positioning with scale k yields exactly k times the design-unit origin of every slot and k times the design-unit advance (the threshold tests inside finalise are on design units or invariant under scaling); in the model the passes never see the font, so glyph ids, attachments and associations cannot depend on it. The design-unit instance of the model is compared exactly (origins, advances, segment advance) with the engine on every synthesised font of the pipeline correspondence. Right-to-left runs, collision offsets, justification, hinted fonts and single-precision rounding are not in the model: for them the property is decided on the implementation by shaping shipped fonts (incl. Awami with collision fixing) with font = NULL and with sized fonts of 0.37..4096 ppm and comparing within float tolerance.",
+        note="Trusted: Lean kernel + [propext, Classical.choice, Quot.sound]; hand-written Model/Position.lean tied by whole-pipeline correspondence in design units; float tolerance 2e-5 relative + 1e-4 absolute in the scaled comparison.",
+        technique="Lean 4 linearity theorem on an exact-arithmetic positioning model + exact design-unit correspondence + NULL-vs-sized-font comparison on shipped fonts",
+        ref="§6 C15"),
     "C11": dict(
         text="Proof (Lean 4 kernel), for all code-unit strings in all three encodings: gr_count_unicode_characters' model never faults on [begin,end) and equals the Unicode specification's scan (Table 3-7/D91/D90) - exact count without error on well-formed text, error reported on ill-formed text, error pointer inside the buffer, count <= well-formed characters before the first ill-formed sequence; NUL-terminated branch never reads past a NUL; get/put inverse on all scalar values; ill-formed sequences swallow only trailing units (resync); the three encodings of a scalar list read back as the same scalars. Decoder tables, limits and toolong thresholds are REGENERATED from UtfCodec.h/.cpp. Model tied to the code by differential execution under ASan: every UTF-8 string of <=3 bytes (exhaustive, 16.8M), boundary-structured longer strings, UTF-16/32 boundary products, gr_make_seg char-infos.",
         note="Trusted: Lean kernel + [propext, Classical.choice, Quot.sound]; extractor for Gen.Utf; hand-written Model/Utf.lean tied by finite differential runs; Spec/Utf.lean validated against Python's strict codecs through the predicate on implementation outputs. Whole-segment equality across encodings is reduced to equality of the decoded scalar list.",
